@@ -121,9 +121,36 @@ def run(ctx):
                 'imports are added in set iteration order: which of two colliding import names gets re-aliased varies from run to run',
                 ii.loc(lp), instance='import-order')
 
+  sk = cs.nested.get('sort_key')
+  if sk is None:
+    raise AnalysisError('_config_str.sort_key vanished')
+  partial = []
+  for x in walk_local(sk.node):
+    if isinstance(x, ast.Subscript) and isinstance(x.slice, ast.Slice) and isinstance(x.value, ast.Call) and isinstance(x.value.func, ast.Attribute) \
+        and x.value.func.attr == 'split':
+      sl = x.slice
+      full_rev = sl.lower is None and sl.upper is None and sl.step is not None and u(sl.step) == '-1'
+      if not full_rev:
+        partial.append(x)
+  uses = {nm for x in walk_local(sk.node) if isinstance(x, ast.Name) for nm in [x.id]}
+  ctx.check(not partial and {'scope', 'selector'} <= uses, 'C06.canonical', construct(sk),
+            'sections are ordered by *all* selector and scope components (a total order on (scope, selector))',
+            'the sort key drops components (`%s`): keys that differ only in the dropped part tie, and a stable sort leaves ties in the order the '
+            'bindings were made' % (u(partial[0]) if partial else 'scope/selector unused'), sk.loc(partial[0]) if partial else sk.loc(), instance='sort-key-total')
+  # imports are written out only after every import needed by the bound configurables has been added
+  emit = [n for n in g.live_nodes() if n.ast is not None and n.kind == 'stmt' and 'sorted_imports' in u(n.ast)]
+  req = [n for n in g.live_nodes() if any(prog.resolve_call(cs, c_) == 'config.ImportManager.require_configurable' for c_ in calls_of_node(n))]
+  late = [r for e in emit for r in req if g.reaches(e.id, r.id)]
+  ctx.check(bool(emit) and bool(req) and not late, 'C06.always-parses', con,
+            'the import lines are produced after the imports required by the bound configurables were added',
+            'the import lines are produced (line %d) before `require_configurable` has added the imports needed by bound / referenced configurables: '
+            'selectors in the text then use modules the text never imports, and re-parsing raises NameError' % (emit[0].lineno if emit else 0),
+            cs.loc(emit[0].ast) if emit else cs.loc(), instance='imports-after-require')
+
   # ---- C06.roundtrip-guard
   roundtrip_guard(ctx, 'C06.roundtrip-guard')
   reference_repr(ctx, 'C06.reference-repr')
+  reference_eq(ctx, 'C06.roundtrip-guard')
   method_selector_rule(ctx, 'C06.selectors')
 
   # ---- C06.markdown
@@ -237,3 +264,20 @@ def reference_repr(ctx, rule):
     ctx.check(ok, rule, construct(rp), 'the printed reference is <scopes>/<selector> in the static and in the dynamic-registration branch',
               'a branch of __repr__ prints the selector without the reference\'s scopes: after a round trip through config_str the reference '
               'runs under the ambient scope instead of its own', rp.loc(v), instance='scopes-kept')
+
+
+def reference_eq(ctx, rule):
+  """ConfigurableReference.__eq__ compares what the reference resolves to, not how it was spelled."""
+  cr = ctx.cls('config.ConfigurableReference')
+  eq = cr.methods.get('__eq__')
+  if eq is None:
+    ctx.fail(rule, 'gin/config.py::ConfigurableReference', 'ConfigurableReference no longer defines __eq__: the round-trip test parse(repr(v)) == v fails for every reference', 'gin/config.py', instance='__eq__')
+    return
+  attrs = {n.attr for n in walk_local(eq.node) if isinstance(n, ast.Attribute) and isinstance(n.value, ast.Name) and n.value.id in (eq.params[0], eq.params[1])
+           and n.attr != '__class__'}
+  spelled = attrs & {'_scoped_selector', '_selector', 'selector', 'scoped_selector'}
+  ctx.check('_configurable' in attrs and not spelled, rule, construct(eq),
+            'two references are equal iff they resolve to the same configurable (and agree on evaluation), however they were spelled',
+            'reference equality depends on the spelling (%s): `parse_value(repr(ref)) == ref` fails whenever the emitted selector differs from the one '
+            'written (re-aliased imports, module-qualified vs short), so such bindings are judged unrepresentable and silently dropped from config strings'
+            % sorted(spelled or attrs), eq.loc(), instance='__eq__')
